@@ -316,20 +316,6 @@ package keeper
 
 //@ family prevTime key global:types.PreviousBlockTimeKey value bytes
 
-// Timestamp (de)serialisation through gogoproto length-prefixed encoding: assumed contracts (not verified).
-//@ func Keeper.GetPreviousBlockTime
-//@   property C03, C04, C13
-//@   trusted
-//@   returns blockTime, found
-//@   nopanic
-//@ end
-//@ func Keeper.SetPreviousBlockTime
-//@   property C03, C04, C13
-//@   trusted
-//@   modifies prevTime
-//@   nopanic
-//@ end
-
 // The expiry iteration (helper with callback; inlined into BeginBlocker together with the closure).
 //@ func Keeper.IterateHTLCExpiredQueueByHeight
 //@   inline
@@ -347,16 +333,52 @@ package keeper
 //@ end
 
 //@ define CUR(d) = ite(has(supplies, d), SUP(d).CurrentSupply.Amount, 0)
+//@ define uniqueDenoms(s) = forall a:Int :: forall b:Int :: 0 <= a && a < b && b < len(s) ==> s[a].Denom != s[b].Denom
+//@ define PREVT = ite(has(prevTime), uf("decode_time", get(prevTime)), time)
+//@ define zeroSup(d) = with(with(with(with(zero(get(supplies, d)), "IncomingSupply", coin(d, 0)), "OutgoingSupply", coin(d, 0)), "CurrentSupply", coin(d, 0)), "TimeLimitedCurrentSupply", coin(d, 0))
+//@ define R0(d) = old(ite(has(supplies, d), get(supplies, d), zeroSup(d)))
+//@ define inWindow(a, dt) = a.SupplyLimit.TimeLimited && R0(a.Denom).TimeElapsed + dt < a.SupplyLimit.TimePeriod
+// the window bookkeeping of asset a after the update, as a function of its record before the update and the block time step
+//@ define windowOK(a, dt) = has(supplies, a.Denom)
+//@      && SUP(a.Denom).TimeElapsed == ite(inWindow(a, dt), R0(a.Denom).TimeElapsed + dt, 0)
+//@      && SUP(a.Denom).TimeLimitedCurrentSupply.Amount == ite(inWindow(a, dt), R0(a.Denom).TimeLimitedCurrentSupply.Amount, 0)
+//@      && SUP(a.Denom).IncomingSupply == R0(a.Denom).IncomingSupply && SUP(a.Denom).OutgoingSupply == R0(a.Denom).OutgoingSupply
+//@      && SUP(a.Denom).CurrentSupply == R0(a.Denom).CurrentSupply
+//@ define elapsedOK = forall d:Str :: has(supplies, d) ==> 0 <= SUP(d).TimeElapsed && SUP(d).TimeElapsed <= 2305843009213693952
+
+// Timestamp (de)serialisation through gogoproto length-prefixed encoding: assumed contracts (not verified).
+//@ func Keeper.GetPreviousBlockTime
+//@   property C03, C04, C13
+//@   trusted
+//@   returns blockTime, found
+//@   ensures decoded: found == has(prevTime) && (found ==> blockTime == uf("decode_time", get(prevTime)))
+//@   nopanic
+//@ end
+//@ func Keeper.SetPreviousBlockTime
+//@   property C03, C04, C13
+//@   trusted
+//@   modifies prevTime
+//@   nopanic
+//@ end
+
 // The per-block window update touches only the time-limited bookkeeping: the incoming / outgoing / current counters
-// of every asset are unchanged, the window restarts (elapsed and time-limited amount zero) once the period is over.
+// of every asset are unchanged; each asset's window advances by the block time step, and restarts (elapsed and
+// time-limited amount zero) once its own period is over -- per asset, independent of the other assets.
 //@ func Keeper.UpdateTimeBasedSupplyLimits
 //@   property C04, C13
-//@   requires allSupWF && paramsValid
+//@   requires allSupWF && paramsValid && elapsedOK
+//@   requires uniqueDenoms(ASSETS)
+//@   requires 0 <= time - PREVT && time - PREVT <= 2305843009213693952
+//@   let dt = time - PREVT
 //@   modifies supplies, prevTime
 //@   invariant #1 idx: rangeindex >= 0 - 1 && rangeindex < len(ASSETS)
 //@   invariant #1 wf:  allSupWF
 //@   invariant #1 counters: forall d:Str :: CIN(d) == old(CIN(d)) && COUT(d) == old(COUT(d)) && CUR(d) == old(CUR(d))
+//@   invariant #1 done: forall j:Int :: 0 <= j && j <= rangeindex ==> windowOK(ASSETS[j], dt)
+//@   invariant #1 todo: forall j:Int :: rangeindex < j && j < len(ASSETS) ==> has(supplies, ASSETS[j].Denom) == old(has(supplies, ASSETS[j].Denom))
+//@                                      && get(supplies, ASSETS[j].Denom) == old(get(supplies, ASSETS[j].Denom))
 //@   ensures keeps_wf: allSupWF
 //@   ensures counters_unchanged: forall d:Str :: CIN(d) == old(CIN(d)) && COUT(d) == old(COUT(d)) && CUR(d) == old(CUR(d))
+//@   ensures window: forall j:Int :: 0 <= j && j < len(ASSETS) ==> windowOK(ASSETS[j], dt)
 //@   nopanic
 //@ end
